@@ -16,6 +16,25 @@ pub fn to_jer_identifier(identifier: &str) -> String {
     identifier.replace('-', "_")
 }
 
+/// Renders `value` as a double-quoted TypeScript string literal.
+pub fn to_string_literal(value: &str) -> String {
+    let mut literal = String::with_capacity(value.len() + 2);
+    literal.push('"');
+    for c in value.chars() {
+        match c {
+            '"' => literal.push_str("\\\""),
+            '\\' => literal.push_str("\\\\"),
+            '\n' => literal.push_str("\\n"),
+            '\r' => literal.push_str("\\r"),
+            '\u{2028}' => literal.push_str("\\u2028"),
+            '\u{2029}' => literal.push_str("\\u2029"),
+            c => literal.push(c),
+        }
+    }
+    literal.push('"');
+    literal
+}
+
 /// Renders the JER shape of `ty`. `extensibility_implied` tells whether the module
 /// of the type carries the `EXTENSIBILITY IMPLIED` default.
 pub fn type_to_tokens(ty: &ASN1Type, extensibility_implied: bool) -> String {
@@ -131,7 +150,7 @@ pub fn value_to_tokens(value: &ASN1Value) -> Result<String, GeneratorError> {
             .try_fold(String::from("{"), |mut acc, (field, _, val)| {
                 acc.push_str("\n\t");
                 value_to_tokens(val.value()).map(|tokenized| {
-                    acc.push_str(&format!("{field}: {tokenized},"));
+                    acc.push_str(&format!("{}: {tokenized},", to_jer_identifier(field)));
                     acc
                 })
             })
@@ -141,7 +160,7 @@ pub fn value_to_tokens(value: &ASN1Value) -> Result<String, GeneratorError> {
             }),
         ASN1Value::Boolean(b) => Ok(String::from(if *b { "true" } else { "false" })),
         ASN1Value::Integer(i) => Ok(i.to_string()),
-        ASN1Value::String(s) => Ok(format!(r#""{s}""#)),
+        ASN1Value::String(s) => Ok(to_string_literal(s)),
         ASN1Value::Real(r) => Ok(r.to_string()),
         ASN1Value::BitStringNamedBits(_) => Err(GeneratorError {
             top_level_declaration: None,
@@ -227,7 +246,7 @@ pub fn value_to_tokens(value: &ASN1Value) -> Result<String, GeneratorError> {
             integer_type: _,
             value,
         } => Ok(value.to_string()),
-        ASN1Value::LinkedCharStringValue(_, value) => Ok(format!(r#""{value}""#)),
+        ASN1Value::LinkedCharStringValue(_, value) => Ok(to_string_literal(value)),
         ASN1Value::All => Err(GeneratorError::new(
             None,
             "ALL values are currently unsupported!",
